@@ -402,7 +402,9 @@ def main(argv):
                   'co-occurring': sorted(OTHERS), 'options': 'mergeProps, optimize symbolic'}
     rep.assumptions = ['value of a valueless / string-literal directive and of array forms with holes or spreads is not fixed by the statement (see C07)',
                        'frame condition decided relationally against the same element without the directive, in the same module']
+    kani = common.KaniCross(rep, ['is_directive_matches_prefix_rule'], atoms=True)
     res = common.run_jobs('mirsym.checks.elements', 'run_family_job', js)
+    kani.collect()
     raw = []
     for r in res:
         raw.extend(r.pop('violations', []))
